@@ -8,6 +8,7 @@ import (
 	"time"
 
 	"github.com/anishathalye/porcupine"
+	nt "github.com/mit-pdos/go-nfsd/nfstypes"
 	"pgregory.net/rapid"
 )
 
@@ -60,6 +61,9 @@ func (cc concCase) describe() map[string]any {
 }
 
 func TestC03Linearizable(t *testing.T) {
+	if EnvInt("VERIF_SHARD", 0) == 0 {
+		probeKF4()
+	}
 	rapid.Check(t, func(t *rapid.T) {
 		cfg := cGenCfg{RootPlus: true, DataOps: true, NameOps: true, DirRename: true, BigTrunc: rapid.IntRange(0, 3).Draw(t, "bigtrunc") == 0,
 			Focus: rapid.Bool().Draw(t, "focus"), FocusDir: rapid.IntRange(0, 2).Draw(t, "focusdir")}
@@ -249,10 +253,13 @@ func TestC03Windows(t *testing.T) {
 type enumCase struct {
 	Data     bool
 	FullDisk bool
-	Pre      []cOp
-	Op0      cOp
-	Prog1    []cOp
-	Hook     int
+	// HalfFreed: the lowest free inode number belongs to a removed big file whose blocks the shrinker had not
+	// finished freeing when the server was stopped: the next allocation finds it and has to finish the job first
+	HalfFreed bool
+	Pre       []cOp
+	Op0       cOp
+	Prog1     []cOp
+	Hook      int
 }
 
 func enumSpace() []enumCase {
@@ -302,6 +309,13 @@ func enumSpace() []enumCase {
 			}
 		}
 	}
+	for _, op0 := range []cOp{{Kind: "create", Dir: D, Name: "a"}, {Kind: "mkdir", Dir: D, Name: "x"}} {
+		for _, prog := range [][]cOp{{op0}, {{Kind: "create", Dir: D, Name: "b"}, op0}, {op0, {Kind: "rename", Dir: D, Name: op0.Name, Dir2: D, Name2: map[string]string{"a": "b", "x": "y"}[op0.Name]}}} {
+			for hook := 0; hook < 12; hook++ {
+				cases = append(cases, enumCase{HalfFreed: true, Op0: op0, Prog1: prog, Hook: hook})
+			}
+		}
+	}
 	w := func(f int, off uint64, n int, tag uint32) cOp {
 		return cOp{Kind: "write", File: f, Off: off, Data: string(patternData(tag, uint64(n))), Stable: 2}
 	}
@@ -328,6 +342,24 @@ func enumSpace() []enumCase {
 	return cases
 }
 
+// makeHalfFreed: a dense 600-block file is created (it gets the lowest free inode number), removed, and the
+// server stopped with the shrinker interrupted and started again.  Reports whether an interrupted free is left.
+func makeHalfFreed(w *cWorld) bool {
+	api := w.S.API()
+	root := w.Dirs[0]
+	c := api.NFSPROC3_CREATE(nt.CREATE3args{Where: nt.Diropargs3{Dir: root, Name: "zbig"}})
+	if c.Status != nt.NFS3_OK {
+		return false
+	}
+	for i := uint64(0); i < 2; i++ {
+		api.NFSPROC3_WRITE(nt.WRITE3args{File: c.Resok.Obj.Handle, Offset: nt.Offset3(i * 300 * BlockSize), Count: 300 * BlockSize, Stable: nt.FILE_SYNC, Data: patternData(uint32(90+i), 300*BlockSize)})
+	}
+	api.NFSPROC3_REMOVE(nt.REMOVE3args{Object: nt.Diropargs3{Dir: root, Name: "zbig"}})
+	w.S.StopCrash()
+	w.S.start()
+	return len(Fsck(w.S.N.VerifFsState(), FsckOpts{}).HalfFreedFree) > 0
+}
+
 func TestC03Enum(t *testing.T) {
 	shard, nshards := EnvInt("VERIF_SHARD", 0), EnvInt("VERIF_NSHARDS", 1)
 	seed := EnvInt("VERIF_SEED", 1)
@@ -338,7 +370,7 @@ func TestC03Enum(t *testing.T) {
 		if i%nshards != shard {
 			continue
 		}
-		if !Thorough() && Hash(seed, i)%4 != 0 {
+		if !Thorough() && Hash(seed, i)%4 != 0 && !ec.HalfFreed {
 			continue
 		}
 		size := uint64(9000)
@@ -352,6 +384,11 @@ func TestC03Enum(t *testing.T) {
 			t.Fatalf("setup: %v", err)
 		}
 		w.FullDisk = ec.FullDisk
+		if ec.HalfFreed {
+			if makeHalfFreed(w) {
+				St.Class("enumerated_cases_starting_with_a_half_freed_inode")
+			}
+		}
 		api := w.S.API()
 		var ops []porcupine.Operation
 		clock := int64(0)
